@@ -273,6 +273,74 @@ def check_observed_around_arithmetic(chk, fails, dis, stats):
             stats["distinct_nontrivial"] += 1
 
 
+def check_metadata_entries_apart(chk, fails, dis, stats):
+    """several metadata-backed variables in one script, on (account, key) pairs that look alike once joined (an account
+    segment that is also the head of a key, the same key on two accounts, the same account with two keys): each
+    variable gets the text of ITS entry"""
+    rng = random.Random("C13meta-%d" % chk.seed)
+    cases, exps = [], []
+    tys = {"string": ["v-one", "v two", "3/4"], "number": ["1", "22", "-3"], "monetary": ["USD/2 100", "USD/2 999", "COIN 0"],
+           "portion": ["1/4", "3/4", "1/2"], "account": ["x", "y:z", "w"], "asset": ["USD", "EUR/2", "A"]}
+    for i in range(chk.size(200, 3000)):
+        sep = rng.choice([":", ":", "/", ".", " ", "-", "_", ""])
+        head, mid, tail = rng.choice(["users", "u", "a-b"]), rng.choice(["alice", "k", "001"]), rng.choice(["rate", "r", "x_y"])
+        pairs = [(head + ":" + mid, tail), (head, mid + sep + tail)]
+        if sep != ":":
+            pairs[1] = (head, mid + ":" + tail) if rng.random() < 0.5 else pairs[1]
+        extra = rng.choice([(head + ":" + mid, tail + "2"), (head, tail), (mid, tail), (head + ":" + mid + ":" + tail, "k")])
+        pairs.append(extra)
+        rng.shuffle(pairs)
+        ty = rng.choice(sorted(tys))
+        vals = list(tys[ty])
+        rng.shuffle(vals)
+        meta, decls, body, exp = {}, [], [], {}
+        for j, ((acc, key), v) in enumerate(zip(pairs, vals)):
+            if not all(ch.isalnum() or ch in "_-:" for ch in acc) or '"' in key:
+                continue
+            meta.setdefault(acc, {})[key] = v
+            decls.append('  %s $m%d = meta(@%s, "%s")' % (ty, j, acc, key))
+            body.append('set_tx_meta("m%d", $m%d)' % (j, j))
+            exp["m%d" % j] = (acc, key)
+        if len(decls) < 2:
+            continue
+        script = "vars {\n" + "\n".join(decls) + "\n}\n" + "\n".join(body) + "\n"
+        cases.append({"id": len(cases), "op": "exec", "script": script, "vars": {}, "balances": {}, "meta": meta,
+                      "store": rng.choice(["exact", "static", "superset", "sparse"]), "failAt": -1})
+        exps.append((exp, meta, ty))
+    gos = runner.run_go(cases)
+    mods = P.run_model(cases, gos)
+    stats["evaluations"] += len(cases)
+    for c, (exp, meta, ty), o, m in zip(cases, exps, gos, mods):
+        go = o.get("go")
+        if go is None:
+            continue
+        if m is not None:
+            stats["model_comparisons"] += 1
+            d = runner.diff_exec(go, m, ["txMeta", "errKind", "errPayload"])
+            if d:
+                dis.append((c, go, m, d))
+        if go["outcome"] != "ok":
+            fails.append((c, go, m, ["reading well-formed metadata entries failed: %s %s" % (go.get("errKind"), go.get("errPayload"))]))
+            continue
+        why = []
+        for name, (acc, key) in exp.items():
+            want = meta[acc][key]
+            got = go["txMeta"][name][1]
+            wantv = want if ty in ("string", "account", "asset", "monetary") else None
+            if ty == "number":
+                wantv = str(int(want))
+            if ty == "portion":
+                from fractions import Fraction
+                q = Fraction(want)
+                wantv = "%d/%d" % (q.numerator, q.denominator)
+            if got != wantv:
+                why.append("variable read from meta(@%s, %r) holds %r, the entry holds %r" % (acc, key, got, want))
+        if why:
+            fails.append((c, go, m, why[:3]))
+        else:
+            stats["distinct_nontrivial"] += 1
+
+
 def run(chk):
     broken = chk.obligations(REGISTRY["C13"])
     runner.build_harness()
@@ -281,6 +349,7 @@ def run(chk):
     check_portions(chk, fails, dis, stats)
     check_roundtrip(chk, fails, dis, stats)
     check_observed_around_arithmetic(chk, fails, dis, stats)
+    check_metadata_entries_apart(chk, fails, dis, stats)
     for c, go, m, why in fails[:10]:
         chk.violation("oracle", case=c, go=go, model=m, oracle=why)
     if not fails:
